@@ -11,7 +11,8 @@ LAST = None
 # every MSD metacharacter alone, at the start, in the middle and at the end of a value, and in pairs; none of them falls in
 # the escaping gaps the properties exclude ('#' after a line break, three or more '/', keys containing '#')
 TRICKY = ["\\", "a\\b", "x\\", "\\x", ":", "a:b", ";", "a;b", "x;", "//", "a//b", "x//", "//x", "\\//", "a\\:b;c", "#", "a#b", "x\\\\",
-          "a\nb", "a\\\nb", "plain", "", "é日本", ":\\", ";\\", "/", "a/b", "/x/"]
+          "a\nb", "a\\\nb", "plain", "", "é日本", ":\\", ";\\", "/", "a/b", "/x/",
+          "a\rb", "a\r\nb", "x\r", "a\x0cb", "a\u2028b", "a\x85b", "a\tb"]
 SM_SITES = ["TITLE", "ZZFRESH", "ATTACKS", "DISPLAYBPM", "stepstype", "description", "difficulty", "meter", "radarvalues", "notes", "extra0", "extra1"]
 SSC_SITES = ["TITLE", "ZZFRESH", "ATTACKS", "DISPLAYBPM", "chart:STEPSTYPE", "chart:CREDIT", "chart:ATTACKS", "chart:ZZFRESH", "chart:NOTES", "chart:NOTES2"]
 
